@@ -42,6 +42,7 @@ KNOWN = {"backward_org": "c06:backward_org", "oversize": "c06:oversize"}
 def run(tier, seed, replay):
     v = vlib.Verdict("C06", tier, seed)
     vlib.build_harness()
+    os.environ["VH_TRACE_LOG"] = "1"      # the harness formats every log record of the code under test (as `-vvvv` does)
     binary = vlib.build_binary()
     rng = random.Random(seed)
     n = 1200 if tier == "quick" else 12000
@@ -75,6 +76,9 @@ def run(tier, seed, replay):
     d = os.path.join(vlib.WORK, "cli6")
     os.makedirs(d, exist_ok=True)
     sample = risk_programs(random.Random(1))[:40] + [tg.program(rng) for _ in range(20 if tier == "quick" else 200)]
+    # programs without any byte (header, comments, labels, constants, size directives only) and tiny ones, in every front end / verbosity
+    sample += ["#! mrasm", "#! mrasm\n", "#! mrasm ; nothing\n; c\n\n", "#! mrasm\nl:\nm:\n", "#! mrasm\n.EQU k 5\n*STACKSIZE 32\n*PROGRAMSIZE NOSET\n",
+               "#! mrasm\n.ORG 0\n", "#! mrasm\n.BYTE 0\n", "#! mrasm\n.ORG 0\nl:\n.BYTE 0\n*PROGRAMSIZE AUTO\n", "#! mrasm\nNOP\n", "#! mrasm\n.DB 0\n"]
     ncli = 0
     for i, t in enumerate(sample):
         fp = os.path.join(d, "p%d.asm" % i)
@@ -82,7 +86,11 @@ def run(tier, seed, replay):
         pv = subprocess.run([binary, "verify", fp], stdout=subprocess.PIPE, stderr=subprocess.PIPE, text=True, timeout=60, env=dict(os.environ, NO_COLOR="1"))
         if pv.returncode != 0:
             continue
-        pr = subprocess.run([binary, "run", fp, "50"], stdout=subprocess.PIPE, stderr=subprocess.PIPE, text=True, timeout=60, env=dict(os.environ, NO_COLOR="1"))
+        # the documented verbosity flags change which log statements are evaluated: alternate between quiet and -vvvv (trace)
+        verbose = ["-vvvv"] if i % 2 else []
+        pr = subprocess.run([binary] + verbose + ["run", fp, "50"], stdout=subprocess.PIPE, stderr=subprocess.PIPE, text=True, timeout=60, env=dict(os.environ, NO_COLOR="1"))
+        if pr.returncode in (0, 1) and "panicked" not in pr.stderr and not verbose and len(t) < 80:
+            pr = subprocess.run([binary, "-vvvv", "run", fp, "50"], stdout=subprocess.PIPE, stderr=subprocess.PIPE, text=True, timeout=60, env=dict(os.environ, NO_COLOR="1"))
         ncli += 1
         if pr.returncode not in (0, 1) or "panicked" in pr.stderr:
             # classify through the same judge
